@@ -248,11 +248,157 @@ pub fn run_daemon(ctx: &mut Ctx, c: &super::c05d::DaemonCase) -> Result<(), Stri
     Ok(())
 }
 
+// ------------------------------------------------------------------ descriptors lent to Frontend calls
+
+#[derive(Serialize, Deserialize, Debug, Clone)]
+pub struct LentCase {
+    pub st: crate::feops::FeState,
+    pub op: crate::feops::FeOp,
+    pub rv: crate::feops::ReplyVals,
+    /// 0/1: the matching answer is waiting; 2: only a zero acknowledgement; 3: nothing (the call fails where it waits)
+    pub answer: u8,
+}
+
+/// Any Frontend call, in any negotiation state, successful or not: the descriptors the caller lent (memory, log,
+/// ring eventfds, inflight, request channel) are still open and still the same objects afterwards.
+pub fn run_lent(ctx: &mut Ctx, c: &LentCase) -> Result<(), String> {
+    use crate::spec;
+    if crate::feops::oversized(&c.op) {
+        ctx.class("lent_not_applicable");
+        return Ok(());
+    }
+    let (mut f, peer) = super::c01::frontend_in_state(&c.st);
+    let mut lent = crate::feops::make_lent(&c.op);
+    if lent.ids.is_empty() {
+        ctx.class("lent_no_descriptor");
+        return Ok(());
+    }
+    match c.answer {
+        0 | 1 => {
+            let (bytes, nfds) = match crate::feops::reply_for(&c.op, &c.st, &c.rv) {
+                Some((b, n, _)) => (b, n),
+                None => (spec::reply(c.op.code(), &spec::b_u64(0)), 0),
+            };
+            let fds: Vec<OwnedFd> = fresh_fds(nfds, FdKind::Memfd);
+            let raw: Vec<RawFd> = fds.iter().map(|x| x.as_raw_fd()).collect();
+            let _ = rawpeer::send_all(peer.as_raw_fd(), &bytes, &raw);
+        }
+        2 => {
+            let _ = rawpeer::send_all(peer.as_raw_fd(), &spec::reply(c.op.code(), &spec::b_u64(0)), &[]);
+        }
+        _ => {}
+    }
+    rawpeer::shutdown_wr(&peer);
+    let r = catch_unwind(AssertUnwindSafe(|| crate::feops::perform(&mut f, &c.op, &mut lent)));
+    let outcome = match &r {
+        Ok(Ok(_)) => "ok",
+        Ok(Err(_)) => "err",
+        Err(_) => "panic",
+    };
+    let shmfd = c.st.acked_pf & spec::pf::mask(spec::pf::LOG_SHMFD) != 0;
+    ctx.class(if outcome == "ok" { "lent_call_ok" } else { "lent_call_failed" });
+    ctx.nontrivial(&("lent", c.op.name(), outcome, shmfd, crate::feops::locally_rejected(&c.op, &c.st), c.st.need_reply));
+    ctx.sample(|| json!({"scenario": "lent", "op": c.op.name(), "acked_pf": c.st.acked_pf, "answer": c.answer, "outcome": outcome, "lent": lent.ids.len()}));
+    let mut bad = None;
+    for (i, (fd, id)) in lent.owned.iter().zip(lent.ids.iter()).enumerate() {
+        if file_id(fd.as_raw_fd()) != Some(*id) {
+            bad = Some(format!("descriptor #{i} ({})", fd.as_raw_fd()));
+        }
+    }
+    if let (Some(e), Some(id)) = (&lent.eventfd, lent.ids.last()) {
+        if file_id(e.as_raw_fd()) != Some(*id) {
+            bad = Some(format!("eventfd {}", e.as_raw_fd()));
+        }
+    }
+    if let Some(b) = bad {
+        // the numbers may already belong to other objects: do not close them again
+        std::mem::forget(lent);
+        return Err(format!("Frontend::{}({:?}) in state {:?} (call result: {outcome}): {b} lent for transmission was closed or replaced by the library", c.op.name(), c.op, c.st));
+    }
+    Ok(())
+}
+
+#[derive(Serialize, Deserialize, Debug, Clone)]
+pub struct ProxyLentCase {
+    /// false: shared_object_lookup, true: shmem_map
+    pub map: bool,
+    /// 0: back-end proxy; 1 / 2: GPU proxy set_dmabuf_scanout / set_dmabuf_scanout2 (fire-and-forget, peer open or gone)
+    #[serde(default)]
+    pub gpu: u8,
+    pub reply_ack: bool,
+    pub so_flag: bool,
+    pub shmem_flag: bool,
+    /// 0: zero acknowledgement waiting, 1: non-zero acknowledgement, 2: nothing
+    pub answer: u8,
+    pub kind: u8,
+}
+
+/// The back-end-to-front-end proxy is lent a descriptor by SHARED_OBJECT_LOOKUP and SHMEM_MAP: open and unchanged
+/// after the call, in every flag combination, whatever the call returns; nothing else stays open.
+pub fn run_proxy_lent(ctx: &mut Ctx, c: &ProxyLentCase) -> Result<(), String> {
+    use crate::spec::{self, be};
+    use vhost::vhost_user::message::{VhostUserMMap, VhostUserSharedMsg};
+    let base = open_set();
+    let fd = crate::fdtrack::make_fd([FdKind::Memfd, FdKind::Eventfd, FdKind::Pipe, FdKind::Socket][(c.kind % 4) as usize]);
+    let id = file_id(fd.as_raw_fd());
+    let outcome;
+    {
+        let (peer, theirs) = UnixStream::pair().map_err(|e| e.to_string())?;
+        let code = if c.map { be::SHMEM_MAP } else { be::SHARED_OBJECT_LOOKUP };
+        match c.answer {
+            0 => drop(rawpeer::send_all(peer.as_raw_fd(), &spec::reply(code, &spec::b_u64(0)), &[])),
+            1 => drop(rawpeer::send_all(peer.as_raw_fd(), &spec::reply(code, &spec::b_u64(22)), &[])),
+            _ => {}
+        }
+        rawpeer::shutdown_wr(&peer);
+        if c.gpu != 0 && c.answer == 1 {
+            drop(peer.shutdown(std::net::Shutdown::Both));
+        }
+        let r = catch_unwind(AssertUnwindSafe(|| {
+            if c.gpu != 0 {
+                use vhost::vhost_user::gpu_message::{VhostUserGpuDMABUFScanout, VhostUserGpuDMABUFScanout2};
+                let g = vhost::vhost_user::GpuBackend::from_stream(theirs);
+                let sc = VhostUserGpuDMABUFScanout { scanout_id: 1, width: 4, height: 4, fd_width: 4, fd_height: 4, fd_stride: 16, ..Default::default() };
+                return if c.gpu == 1 { g.set_dmabuf_scanout(&sc, Some(&fd)).is_ok() } else { g.set_dmabuf_scanout2(&VhostUserGpuDMABUFScanout2 { dmabuf_scanout: sc, modifier: 7 }, Some(&fd)).is_ok() };
+            }
+            let b = vhost::vhost_user::Backend::from_stream(theirs);
+            b.set_reply_ack_flag(c.reply_ack);
+            b.set_shared_object_flag(c.so_flag);
+            b.set_shmem_flag(c.shmem_flag);
+            let mut u = VhostUserSharedMsg::default();
+            u.uuid = uuid::Uuid::from_bytes([4; 16]);
+            let mm = VhostUserMMap { shmid: 0, padding: [0; 7], fd_offset: 0, shm_offset: 0, len: 0x1000, flags: 0 };
+            use vhost::vhost_user::VhostUserFrontendReqHandler;
+            if c.map {
+                b.shmem_map(&mm, &fd).is_ok()
+            } else {
+                b.shared_object_lookup(&u, &fd).is_ok()
+            }
+        }));
+        outcome = match r {
+            Ok(true) => "ok",
+            Ok(false) => "err",
+            Err(_) => "panic",
+        };
+        if file_id(fd.as_raw_fd()) != id {
+            std::mem::forget(fd);
+            return Err(format!("{} {} (reply_ack {}, shared-object flag {}, shmem flag {}, answer {}, result {outcome}): the descriptor lent for transmission was closed or replaced by the library", if c.gpu != 0 { "GpuBackend set_dmabuf_scanout" } else { "Backend proxy" }, if c.gpu != 0 { "" } else if c.map { "shmem_map" } else { "shared_object_lookup" }, c.reply_ack, c.so_flag, c.shmem_flag, c.answer));
+        }
+    }
+    drop(fd);
+    ctx.class("proxy_lent");
+    ctx.nontrivial(&("proxylent", c.gpu, c.map, c.reply_ack, c.so_flag, c.shmem_flag, c.answer, outcome));
+    if let Some(d) = diff(&base, &open_set()) {
+        return Err(format!("Backend proxy call {c:?} (result {outcome}): after the call and dropping the proxy: {d}"));
+    }
+    Ok(())
+}
+
 pub fn run(ctx: &mut Ctx) {
     ctx.rule = "(1) C05's mutated streams with 0..=40 descriptors per chunk at byte 0 or a random byte against BackendReqHandler, torn down after a \
                 generated number of handle_request calls (0 .. all); (2) mutated back-end-request streams with 0..=3 descriptors against \
                 FrontendReqHandler, likewise; (3) Frontend calls answered with C06's mutated replies carrying 0..=3 descriptors; (4) C02 sessions \
-                with lent descriptors; (5) daemon message sequences with kick/call/err/memory/log/request-channel descriptors. Every scenario \
+                with lent descriptors; (4b) single Frontend calls that lend descriptors (memory, log, ring eventfds, inflight, request channel, device state) in generated negotiation states, answered correctly / with a bare acknowledgement / not at all: every lent descriptor is still open and the same object after the call, whatever its result; (4c) the same for the descriptor lent to the back-end proxy by shared_object_lookup / shmem_map in every flag combination and to the GPU proxy by set_dmabuf_scanout / set_dmabuf_scanout2 (peer open or gone); (5) daemon message sequences with kick/call/err/memory/log/request-channel descriptors. Every scenario \
                 starts from a snapshot of /proc/self/fd and must return to exactly that set after all endpoints, handler-owned files and harness \
                 copies are dropped. Non-trivial = descriptors on a rejected message, more than 32 descriptors, descriptors not on byte 0, teardown \
                 with unread messages that carry descriptors."
@@ -279,6 +425,24 @@ pub fn run(ctx: &mut Ctx) {
     let n = ctx.tier.pick(500u32, 60_000u32);
     let ss = (super::c02::neg_strategy(), proptest::collection::vec(crate::feops::op_strategy(), 1..16)).prop_map(|(neg, ops)| super::c02::SessCase { neg, ops });
     ctx.prop_check("sessions", n, ss, |ctx, c| run_session(ctx, c));
+
+
+    let n = ctx.tier.pick(4000u32, 400_000u32);
+    let st = (
+        prop_oneof![Just(2u64), Just(255), Just(256), Just(0x8000)],
+        prop_oneof![1 => Just(0u64), 3 => Just(crate::spec::VIRTIO_F_PROTOCOL_FEATURES | 1 << 32)],
+        any::<bool>(),
+        prop_oneof![2 => Just(0u64), 3 => any::<u64>().prop_map(|v| v & 0x3f_ffff), 2 => Just(0x3f_ffffu64)],
+        any::<bool>(),
+    )
+        .prop_map(|(max_queue, offered_vf, ackvf, acked_pf, need_reply)| crate::feops::FeState { max_queue, offered_vf, acked_vf: if ackvf { offered_vf } else { 0 }, acked_pf: if offered_vf != 0 { acked_pf } else { 0 }, need_reply });
+    let with_fd = crate::feops::op_strategy().prop_filter("call lends a descriptor", |op| { use crate::feops::FeOp as O; matches!(op, O::SetMemTable(_) | O::AddMemRegion(_) | O::SetLogBase { region: Some(_), .. } | O::SetLogFd | O::SetVringCall(_) | O::SetVringKick(_) | O::SetVringErr(_) | O::SetBackendReqFd | O::SetInflightFd(..) | O::SetDeviceStateFd(_)) });
+    let ls = (st, with_fd, crate::feops::reply_vals(), 0u8..4).prop_map(|(st, op, rv, answer)| LentCase { st, op, rv, answer });
+    ctx.prop_check("lent_descriptors", n, ls, |ctx, c| run_lent(ctx, c));
+
+    let n = ctx.tier.pick(600u32, 40_000u32);
+    let ps = (any::<bool>(), any::<bool>(), any::<bool>(), any::<bool>(), 0u8..3, 0u8..4, prop_oneof![2 => Just(0u8), 1 => Just(1u8), 1 => Just(2u8)]).prop_map(|(map, reply_ack, so_flag, shmem_flag, answer, kind, gpu)| ProxyLentCase { map, gpu, reply_ack, so_flag, shmem_flag, answer, kind });
+    ctx.prop_check("proxy_lent_descriptors", n, ps, |ctx, c| run_proxy_lent(ctx, c));
 
     let n = ctx.tier.pick(300u32, 30_000u32);
     ctx.prop_check("daemon_sequences", n, super::c05d::daemon_case_strategy(), |ctx, c| run_daemon(ctx, c));
